@@ -79,6 +79,10 @@ func (p *IdentityProvider) logoutHandleFunc(w http.ResponseWriter, r *http.Reque
 	// get persisted service provider from issuer out of the request
 	checkerInstance.WithLogicStep(
 		func() error {
+			if logoutRequest.Issuer == nil {
+				err = fmt.Errorf("request contains no issuer")
+				return err
+			}
 			sp, err = p.GetServiceProvider(r.Context(), logoutRequest.Issuer.Text)
 			return err
 		},
